@@ -92,7 +92,7 @@ def gen_cfg(rng):
     saga_to = []
     for _ in range(n_steps):
         saga_to.append(rng.choice([None, dur_ms(rng, 1, 60), dur_ms(rng, 20, 400), dur_ms(rng, 400, 2500)]))
-    return {
+    cfg = {
         "end": end,
         "parts": parts,
         "poisson": rng.random() < 0.5,
@@ -151,6 +151,11 @@ def gen_cfg(rng):
         "sidecar": _gen_sidecar(rng, long),
         "sidecars_extra": [_gen_sidecar(rng, long) for _ in range(rng.choice([0, 0, 1, 2]))],
     }
+    # A daemon interval below one nanosecond (OutboxRelay.poll_interval, IdempotencyStore.cleanup_interval = 1e-10 s)
+    # is rejected by the constructors since fix 1ffc2c6 (fixes/C07-microservice-subnanosecond-interval.*) and is never
+    # generated; the regression inputs are corpus/C07/outbox-subnanosecond-poll-interval.json and
+    # corpus/C07/idem-subnanosecond-cleanup-interval.json.
+    return cfg
 
 
 def build(cfg, seed):
@@ -158,6 +163,7 @@ def build(cfg, seed):
     from happysimulator.components.microservice import (
         APIGateway, IdempotencyStore, OutboxRelay, RouteConfig, Saga, SagaStep, Sidecar,
     )
+    from happysimulator.components.microservice.saga import SagaState
     from happysimulator.components.rate_limiter.policy import (
         AdaptivePolicy, FixedWindowPolicy, LeakyBucketPolicy, SlidingWindowPolicy, TokenBucketPolicy,
     )
@@ -492,7 +498,8 @@ def build(cfg, seed):
         obs["saga"] = stats_of(saga)
 
         def saga_states():
-            out = {}
+            out = {st.name: 0 for st in (SagaState.PENDING, SagaState.RUNNING, SagaState.COMPENSATING,
+                                         SagaState.COMPLETED, SagaState.COMPENSATED, SagaState.FAILED)}
             for i in range(1, saga.stats.sagas_started + 2):
                 st = saga.get_instance_state(i)
                 k = "none" if st is None else st.name
